@@ -709,7 +709,12 @@ func c02R5(p *core.Prog, r *core.Report) {
 		}
 		fname := p.FuncName(fn)
 		found := false
-		for _, c := range core.CallsTo(fn, func(f *types.Func) bool { return core.IsModFunc(f, "types/manifest", "New") }) {
+		var news []ssa.CallInstruction
+		for _, g := range sortedFuncs(core.Helpers(fn, 2)) {
+			// (the body may be read and parsed in an unexported helper of the fetch function)
+			news = append(news, core.CallsTo(g, func(f *types.Func) bool { return core.IsModFunc(f, "types/manifest", "New") })...)
+		}
+		for _, c := range news {
 			call, ok := c.(*ssa.Call)
 			if !ok {
 				continue
